@@ -69,9 +69,9 @@ def decl_variants(P='T', U='U'):
         D.static(single(T(P)), 'make', [arg(T(U, 1, '&'), 'u')], tpl=[D.tparam(U, UCONC)]),
         D.ctor('Foo', [arg(T(U), 'u'), arg(T(P), 'a')], tpl=[D.tparam(U, UCONC)]),
         D.method(single(T('W2')), 'pick', [arg(T(U, 1, '&'), 'u'), arg(T('W2'), 'w')], tpl=[D.tparam(U, UCONC), D.tparam('W2', [T('string')])]),
-        D.method(single(T(U)), 'after', [arg(T(U, 1, '&'), 'u')], tpl=[D.tparam(U, [T('double')])]),
+        D.method(single(T('V9')), 'after', [arg(T('V9', 1, '&'), 'u'), arg(T(P), 'p')], tpl=[D.tparam('V9', [T('double')])]),
         D.static(single(T('W2')), 'spick', [arg(T(U), 'u'), arg(T('W2', 1, '&'), 'w')], tpl=[D.tparam(U, UCONC), D.tparam('W2', [T('string')])]),
-        D.static(single(T(U)), 'safter', [arg(T(U), 'u')], tpl=[D.tparam(U, [T('double')])]),
+        D.static(single(T('V9')), 'safter', [arg(T('V9'), 'u')], tpl=[D.tparam('V9', [T('double')])]),
     ], tpl=[D.tparam(P, insts[0])])])])
     # typedef'd instantiations: one typedef per selected argument, of a foreign (forward-declared) template, of a class
     # template without list, and of a function template without list
